@@ -136,6 +136,7 @@ def FrameValid : Frame → Prop
   | .newConnectionID seq retire cid tok => retire ≤ seq ∧ 1 ≤ cid.length ∧ cid.length ≤ 20 ∧ tok.length = 16
   | .pathChallenge d => d.length = 8
   | .pathResponse d => d.length = 8
+  | .stream _ off _ data => off + data.length < 4611686018427387904
   | _ => True
 
 private theorem writeSized_added (avail : Nat) (e : Option (List Nat)) (bs : List Nat)
@@ -275,15 +276,19 @@ theorem frame_roundtrip (avail : Nat) (f : Frame) (bs tail : List Nat) (hv : Fra
     simp only [FrameValid] at hv
     unfold writePath at h; split at h <;> simp at h; subst h
     refine ⟨?_, by simp; omega⟩
+    have h8 : (d ++ tail).take 8 = d := by rw [← hv]; simp
+    have h8' : (d ++ tail).drop 8 = tail := by rw [← hv]; simp
     have := parseFrame_of_body ftPathChallenge d tail (Frame.pathChallenge d)
-      (by simp [parseBody, consumePath, hv, ← hv])
+      (by simp [parseBody, consumePath, h8, h8', hv])
     simpa using this
   case pathResponse d =>
     simp only [FrameValid] at hv
     unfold writePath at h; split at h <;> simp at h; subst h
     refine ⟨?_, by simp; omega⟩
+    have h8 : (d ++ tail).take 8 = d := by rw [← hv]; simp
+    have h8' : (d ++ tail).drop 8 = tail := by rw [← hv]; simp
     have := parseFrame_of_body ftPathResponse d tail (Frame.pathResponse d)
-      (by simp [parseBody, consumePath, hv, ← hv])
+      (by simp [parseBody, consumePath, h8, h8', hv])
     simpa using this
   case newConnectionID seq retire cid tok =>
     simp only [FrameValid] at hv
@@ -316,7 +321,7 @@ theorem frame_roundtrip (avail : Nat) (f : Frame) (bs tail : List Nat) (hv : Fra
       unfold appendUint8Bytes at hz
       split at hz <;> simp at hz
       subst hz; simp; omega
-    refine ⟨?_, by simp; omega⟩
+    refine ⟨?_, by simp only [List.length_cons, List.length_append]; subst hlx hly; rw [ht] at hav ⊢; rw [hzl]; omega⟩
     have hnlt : ¬ seq < retire := by omega
     have := parseFrame_of_body ftNewConnectionID (x ++ (y ++ (z ++ tok))) tail
       (Frame.newConnectionID seq retire cid tok)
@@ -325,9 +330,610 @@ theorem frame_roundtrip (avail : Nat) (f : Frame) (bs tail : List Nat) (hv : Fra
         rw [e]
         simp [parseBody, consumeNewConnectionID, takeVarint_append seq x _ hx, takeVarint_append retire y _ hy,
           takeVarintBytes_append cid _ z hz', hnlt]
-        refine ⟨⟨by omega, by omega⟩, by omega, ?_, ?_⟩
+        refine ⟨⟨?_, hc2⟩, by omega, ?_, ?_⟩
+        · intro hc; simp [hc] at hc1
         · rw [← ht]; simp
         · rw [← ht]; simp)
     simpa using this
+
+
+private theorem size_mono (v w n m : Nat) (hvw : v ≤ w) (hv : sizeVarint v = some n) (hw : sizeVarint w = some m) :
+    n ≤ m := by
+  unfold sizeVarint at hv hw
+  repeat' split at hv
+  all_goals simp at hv
+  all_goals subst hv
+  all_goals (repeat' split at hw)
+  all_goals simp at hw
+  all_goals omega
+
+private theorem avb_length (d bs : List Nat) (h : appendVarintBytes d = some bs) :
+    ∃ p, appendVarint d.length = some p ∧ bs = p ++ d := by
+  unfold appendVarintBytes at h
+  split at h <;> simp at h
+  exact ⟨_, ‹_›, h.symm⟩
+
+/-- **CRYPTO round trip.** The writer emits a prefix of the data (all of it when there is
+room); the frame parses back to the offset and exactly that prefix. -/
+theorem crypto_roundtrip (avail off : Nat) (data bs tail : List Nat)
+    (h : writeCrypto avail off data = WR.added bs) :
+    ∃ k, k ≤ data.length ∧ (0 < data.length → 0 < k) ∧
+      parseFrame (bs ++ tail) = some (Frame.crypto off (data.take k), bs.length) ∧ bs.length ≤ avail := by
+  unfold writeCrypto at h
+  split at h <;> try (simp at h; done)
+  rename_i a b ha hb
+  split at h <;> try (simp at h; done)
+  rename_i hav
+  simp only at h
+  split at h <;> simp at h
+  rename_i enc he
+  subst h
+  generalize hk : (if avail - (1 + a + b) < data.length then avail - (1 + a + b) else data.length) = k at he
+  have hkl : k ≤ data.length := by subst hk; split <;> omega
+  have hkm : k ≤ avail - (1 + a + b) := by subst hk; split <;> omega
+  unfold encCrypto at he
+  split at he <;> simp at he
+  rename_i x y hx hy
+  subst he
+  obtain ⟨p, hp, rfl⟩ := avb_length _ _ hy
+  have hlx := size_eq_length off x hx
+  rw [ha] at hlx; simp at hlx
+  have hlp := size_eq_length _ p hp
+  have htk : (data.take k).length = k := by simp; omega
+  rw [htk] at hlp
+  have := size_mono k data.length p.length b hkl hlp hb
+  refine ⟨k, hkl, ?_, ?_, ?_⟩
+  · intro hpos; subst hk; split <;> omega
+  · have hy' := takeVarintBytes_append (data.take k) tail _ hy
+    simp only [List.append_assoc] at hy'
+    have := parseFrame_of_body ftCrypto (x ++ (p ++ data.take k)) tail (Frame.crypto off (data.take k))
+      (by simp [parseBody, takeVarint_append off x _ hx, hy'])
+    simpa using this
+  · simp only [List.length_cons, List.length_append, htk]; omega
+
+private theorem stream_typ_bits (o l f : Bool) (t : Nat)
+    (ht : t = ((8 + if o = true then streamOffBit else 0) + if l = true then streamLenBit else 0) +
+          if f = true then streamFinBit else 0) :
+    (8 ≤ t ∧ t ≤ 15) ∧ (t / 4 % 2 = 1 ↔ o = true) ∧ (t / 2 % 2 = 1 ↔ l = true) ∧ (t % 2 = 1 ↔ f = true) := by
+  subst ht
+  cases o <;> cases l <;> cases f <;> simp [streamOffBit, streamLenBit, streamFinBit]
+
+private theorem parseBody_stream (t : Nat) (b : List Nat) (h : 8 ≤ t ∧ t ≤ 15) :
+    parseBody t b = consumeStream t b := by
+  have h0 : t ≠ 0 := by omega
+  have h1 : t ≠ 1 := by omega
+  have h2 : t ≠ 2 := by omega
+  have h3 : t ≠ 3 := by omega
+  have h4 : t ≠ 4 := by omega
+  have h5 : t ≠ 5 := by omega
+  have h6 : t ≠ 6 := by omega
+  have h7 : t ≠ 7 := by omega
+  simp [parseBody, h0, h1, h2, h3, h4, h5, h6, h7, h]
+
+/-- STREAM parser on every combination of the OFF/LEN/FIN bits: the frame built with explicit
+bits parses back to the same fields (offset 0 when OFF is clear; without LEN the data runs to
+the end of the packet, so nothing may follow). -/
+theorem stream_bits_roundtrip (offBit lenBit fin : Bool) (id off : Nat) (data bs tail : List Nat)
+    (h : encStream offBit lenBit fin id off data = some bs)
+    (hlen : lenBit = false → tail = [])
+    (hlim : (if offBit then off else 0) + data.length < 4611686018427387904) :
+    parseFrame (bs ++ tail) = some (Frame.stream id (if offBit then off else 0) fin data, bs.length) := by
+  simp only [encStream] at h
+  generalize hx : appendVarint id = ex at h
+  generalize hy : (if offBit = true then appendVarint off else some []) = ey at h
+  generalize hz : (if lenBit = true then appendVarintBytes data else some data) = ez at h
+  cases ex <;> cases ey <;> cases ez <;> simp at h
+  rename_i x y z
+  subst h
+  obtain ⟨t, ht⟩ : ∃ t, t = ((8 + if offBit = true then streamOffBit else 0) +
+      if lenBit = true then streamLenBit else 0) + if fin = true then streamFinBit else 0 := ⟨_, rfl⟩
+  rw [← ht]
+  obtain ⟨hr, ho, hl, hf⟩ := stream_typ_bits offBit lenBit fin t ht
+  clear ht
+  have hnl : ¬ ((if offBit then off else 0) + data.length ≥ 4611686018427387904) := by omega
+  have hfin : decide (t % 2 = 1) = fin := by
+    cases fin <;> simp_all
+  have hbody : parseBody t ((x ++ (y ++ z)) ++ tail) =
+      some (Frame.stream id (if offBit then off else 0) fin data, tail) := by
+    rw [parseBody_stream t _ hr]
+    simp only [consumeStream, List.append_assoc, takeVarint_append id x _ hx]
+    cases offBit <;> cases lenBit <;> simp at ho hl hy hz hlen hnl ⊢
+    · subst hy hz hlen
+      simp [ho, hl, hfin]; omega
+    · subst hy
+      have hz' := takeVarintBytes_append data tail z hz
+      simp [ho, hl, hfin, hz']; omega
+    · subst hz hlen
+      simp [ho, hl, hfin, takeVarint_append off y _ hy]; omega
+    · have hz' := takeVarintBytes_append data tail z hz
+      simp [ho, hl, hfin, takeVarint_append off y _ hy, hz']; omega
+  have := parseFrame_of_body t (x ++ (y ++ z)) tail _ hbody
+  simpa using this
+
+/-- **STREAM round trip (writer).** The writer emits a prefix of the data; FIN is kept only
+when all the data fits; the frame parses back to exactly that. -/
+theorem stream_roundtrip (avail id off : Nat) (fin : Bool) (data bs tail : List Nat)
+    (hlim : off + data.length < 4611686018427387904)
+    (h : writeStream avail id off fin data = WR.added bs) :
+    ∃ k, k ≤ data.length ∧
+      parseFrame (bs ++ tail) =
+        some (Frame.stream id off (fin && decide (k = data.length)) (data.take k), bs.length) ∧
+      bs.length ≤ avail := by
+  unfold writeStream at h
+  split at h <;> try (simp at h; done)
+  rename_i a b c ha hb hc
+  split at h <;> try (simp at h; done)
+  rename_i hav
+  simp only at h
+  split at h <;> simp at h
+  rename_i enc he
+  subst h
+  generalize hk : (if avail - (1 + a + b + c) < data.length then avail - (1 + a + b + c) else data.length) = k at he
+  have hkl : k ≤ data.length := by subst hk; split <;> omega
+  have hkm : k ≤ avail - (1 + a + b + c) := by subst hk; split <;> omega
+  have htk : (data.take k).length = k := by simp; omega
+  have hfin : (if avail - (1 + a + b + c) < data.length then false else fin) = (fin && decide (k = data.length)) := by
+    subst hk
+    split
+    · have : ¬ (avail - (1 + a + b + c) = data.length) := by omega
+      simp [this]
+    · simp
+  rw [hfin] at he
+  have hrt := stream_bits_roundtrip (decide (off ≠ 0)) true (fin && decide (k = data.length)) id off
+    (data.take k) enc tail he (by simp) (by split <;> (rw [htk]; omega))
+  have hoff : (if decide (off ≠ 0) = true then off else 0) = off := by
+    by_cases h0 : off = 0 <;> simp [h0]
+  rw [hoff] at hrt
+  refine ⟨k, hkl, hrt, ?_⟩
+  -- size accounting
+  simp only [encStream] at he
+  generalize hx : appendVarint id = ex at he
+  generalize hy : (if decide (off ≠ 0) = true then appendVarint off else some []) = ey at he
+  generalize hz : appendVarintBytes (data.take k) = ez at he
+  cases ex <;> cases ey <;> cases ez <;> simp at he
+  rename_i x y z
+  subst he
+  obtain ⟨p, hp, rfl⟩ := avb_length _ _ hz
+  have hlx := size_eq_length id x hx
+  rw [ha] at hlx; simp at hlx
+  have hlp := size_eq_length _ p hp
+  rw [htk] at hlp
+  have hpc := size_mono k data.length p.length c hkl hlp hc
+  have hyb : y.length = b := by
+    by_cases h0 : off = 0
+    · simp [h0] at hy hb; subst hy; subst hb; rfl
+    · simp [h0] at hy hb
+      have := size_eq_length off y hy
+      rw [hb] at this; simp at this; omega
+  simp only [List.length_cons, List.length_append, htk]
+  omega
+
+/-! #### ACK -/
+
+private theorem ackMore_parse (ecnLen : Nat) (rs : List (Nat × Nat)) :
+    ∀ (prevStart avail count : Nat) (bs : List Nat) (c : Nat) (tail : List Nat),
+      ackMore ecnLen rs prevStart avail count = some (bs, c) →
+      ∃ k, c = count + k ∧ k ≤ rs.length ∧ (count ≤ 63 → c ≤ 63) ∧
+        (ecnLen ≤ avail → bs.length + ecnLen ≤ avail) ∧
+        ackTail k prevStart (bs ++ tail) = some (rs.take k, tail) := by
+  induction rs with
+  | nil =>
+    intro prevStart avail count bs c tail h
+    simp [ackMore] at h
+    obtain ⟨rfl, rfl⟩ := h
+    exact ⟨0, by simp, by simp, by simp, by simp, by simp [ackTail]⟩
+  | cons r rs ih =>
+    intro prevStart avail count bs c tail h
+    obtain ⟨s, e⟩ := r
+    unfold ackMore at h
+    split at h
+    · simp at h
+    · rename_i hg
+      split at h
+      · rename_i g z hgv hzv
+        split at h
+        · simp at h
+          obtain ⟨rfl, rfl⟩ := h
+          exact ⟨0, by simp, by simp, by simp, by simp, by simp [ackTail]⟩
+        · rename_i hstop
+          split at h
+          · rename_i bs' c' hrec
+            simp at h
+            obtain ⟨rfl, rfl⟩ := h
+            obtain ⟨k, hc, hk, h63, hlen, hp⟩ := ih s (avail - (g.length + z.length)) (count + 1) bs' c' tail hrec
+            refine ⟨k + 1, by omega, by simp; omega, ?_, ?_, ?_⟩
+            · intro _; apply h63; omega
+            · intro _
+              have := hlen (by omega)
+              simp only [List.length_append]; omega
+            · have e1 : g ++ (z ++ bs') ++ tail = g ++ (z ++ (bs' ++ tail)) := by simp
+              rw [e1]
+              simp only [ackTail, takeVarint_append _ g _ hgv, takeVarint_append _ z _ hzv]
+              have h1 : ¬ (prevStart < prevStart - e - 1 + 2) := by omega
+              have h2 : ¬ (prevStart - (prevStart - e - 1) - 2 < e - s - 1) := by omega
+              have h3 : prevStart - (prevStart - e - 1) - 2 - (e - s - 1) = s := by omega
+              have h4 : prevStart - (prevStart - e - 1) - 2 + 1 = e := by omega
+              simp [h1, h2, h3, h4, hp]
+          · simp at h
+      · simp at h
+
+private theorem one_byte_varint (c : Nat) (h : c ≤ 63) : appendVarint c = some [c] := by
+  unfold appendVarint; simp [h]
+
+/-- **ACK round trip.** `appendAckFrame` writes the newest range and as many older ranges as
+fit (at most 63 more); `consumeAckFrame` reports exactly those ranges, newest first, together
+with the largest acknowledged number, the delay and the ECN counts. -/
+theorem ack_roundtrip (avail : Nat) (seen : List (Nat × Nat)) (delay : Nat) (ecn : Nat × Nat × Nat)
+    (bs tail : List Nat) (h : writeAck avail seen delay ecn = WR.added bs) :
+    ∃ s e older k, seen.reverse = (s, e) :: older ∧ k ≤ 63 ∧ k ≤ older.length ∧
+      parseFrame (bs ++ tail) = some (Frame.ack (e - 1) delay ((s, e) :: older.take k) ecn, bs.length) ∧
+      bs.length ≤ avail := by
+  unfold writeAck at h
+  split at h
+  · simp at h
+  · rename_i s e older hrev
+    split at h
+    · simp at h
+    · rename_i hg
+      split at h <;> try (simp at h; done)
+      rename_i eb l d f heb hl hd hf
+      simp only at h
+      split at h
+      · simp at h
+      · rename_i hav
+        split at h <;> simp at h
+        rename_i more count hmore
+        subst h
+        obtain ⟨k, hc, hk, h63, hlen, hp⟩ := ackMore_parse eb.length older s
+          (avail - (1 + l.length + d.length + 1 + f.length)) 0 more count (eb ++ tail) hmore
+        have hc63 : count ≤ 63 := h63 (by omega)
+        have hk' : k = count := by omega
+        subst hk'
+        refine ⟨s, e, older, k, hrev, hc63, hk, ?_, ?_⟩
+        · have hcv := one_byte_varint k hc63
+          have hfirst1 : ¬ (e - 1 < e - s - 1) := by omega
+          have hfirst2 : e - 1 - (e - s - 1) = s := by omega
+          have hfirst3 : e - 1 + 1 = e := by omega
+          have hp' : ackTail k s (more ++ (eb ++ tail)) = some (older.take k, eb ++ tail) := hp
+          by_cases hz : ecn = (0, 0, 0)
+          · simp only [hz, if_true] at heb ⊢
+            simp [ecnBytes] at heb
+            subst heb
+            have hp'' : ackTail k s (more ++ tail) = some (older.take k, tail) := by simpa using hp'
+            have hcons : consumeAck ftAck ((l ++ (d ++ (k :: (f ++ (more ++ []))))) ++ tail) =
+                some (e - 1, delay, (s, e) :: older.take k, (0, 0, 0), tail) := by
+              have e1 : (l ++ (d ++ (k :: (f ++ (more ++ []))))) ++ tail =
+                  l ++ (d ++ ([k] ++ (f ++ (more ++ ([] ++ tail))))) := by simp
+              rw [e1]
+              simp only [consumeAck, takeVarint_append _ l _ hl, takeVarint_append _ d _ hd,
+                takeVarint_append _ [k] _ hcv, takeVarint_append _ f _ hf]
+              simp [hfirst1, hfirst2, hfirst3, hp'']
+            have := parseFrame_of_body ftAck (l ++ (d ++ (k :: (f ++ (more ++ []))))) tail
+              (Frame.ack (e - 1) delay ((s, e) :: older.take k) (0, 0, 0))
+              (by simp only [parseBody]; simp at hcons; simp [hcons])
+            simpa using this
+          · simp only [hz, if_false] at heb ⊢
+            simp only [ecnBytes, hz, if_false] at heb
+            split at heb <;> simp at heb
+            rename_i a b c ha hb hcc
+            subst heb
+            obtain ⟨t0, t1, ce⟩ := ecn
+            simp only [] at ha hb hcc
+            have hcons : consumeAck ftAckECN ((l ++ (d ++ (k :: (f ++ (more ++ (a ++ (b ++ c))))))) ++ tail) =
+                some (e - 1, delay, (s, e) :: older.take k, (t0, t1, ce), tail) := by
+              have e1 : (l ++ (d ++ (k :: (f ++ (more ++ (a ++ (b ++ c))))))) ++ tail =
+                  l ++ (d ++ ([k] ++ (f ++ (more ++ ((a ++ (b ++ c)) ++ tail))))) := by simp
+              rw [e1]
+              simp only [consumeAck, takeVarint_append _ l _ hl, takeVarint_append _ d _ hd,
+                takeVarint_append _ [k] _ hcv, takeVarint_append _ f _ hf]
+              have hp'' := hp'
+              simp at hp''
+              simp [hfirst1, hfirst2, hfirst3, hp'', takeVarint_append _ a _ ha, takeVarint_append _ b _ hb,
+                takeVarint_append _ c _ hcc]
+            have := parseFrame_of_body ftAckECN (l ++ (d ++ (k :: (f ++ (more ++ (a ++ (b ++ c))))))) tail
+              (Frame.ack (e - 1) delay ((s, e) :: older.take k) (t0, t1, ce))
+              (by simp only [parseBody]; simp at hcons; simp [hcons])
+            simpa using this
+        · have := hlen (by omega)
+          simp only [List.length_cons, List.length_append] at this ⊢
+          omega
+
+/-! #### PADDING -/
+
+private theorem countPadding_replicate (k : Nat) (tail : List Nat) (ht : tail.head? ≠ some 0) :
+    countPadding (List.replicate k 0 ++ tail) = k := by
+  induction k with
+  | zero =>
+    cases tail with
+    | nil => simp [countPadding]
+    | cons a t =>
+      cases a with
+      | zero => simp at ht
+      | succ a => simp [countPadding]
+  | succ k ih => simp [List.replicate_succ, countPadding, ih]
+
+/-- A run of `k ≥ 1` PADDING bytes followed by anything that is not PADDING parses as one
+PADDING frame of size `k`; `debugFramePadding.write` emits `min size avail` of them. -/
+theorem padding_roundtrip (avail size : Nat) (bs tail : List Nat) (ht : tail.head? ≠ some 0)
+    (h : writePadding avail size = WR.added bs) (hs : 0 < size) :
+    bs = List.replicate (min size avail) 0 ∧ bs.length ≤ avail ∧
+    parseFrame (bs ++ tail) = some (Frame.padding bs.length, bs.length) := by
+  unfold writePadding at h
+  split at h <;> simp at h
+  subst h
+  rename_i hav
+  have hk : 0 < min size avail := by omega
+  obtain ⟨k, hk'⟩ : ∃ k, min size avail = k + 1 := ⟨min size avail - 1, by omega⟩
+  refine ⟨rfl, by simp; omega, ?_⟩
+  rw [hk']
+  simp only [List.replicate_succ, List.cons_append, parseFrame, parseBody]
+  simp [countPadding_replicate k tail ht]
+  omega
+
+/-! #### The parser accepts only frames with in-range fields -/
+
+local macro "pv" h:ident : tactic =>
+  `(tactic| (simp [parseBody, parse1, parse2, parse3, consumeStream, consumeNewConnectionID, consumePath] at $h:ident
+             <;> (repeat' split at $h:ident) <;> (try simp at $h:ident) <;> (try (obtain ⟨hh, _⟩ := $h:ident; subst hh))
+             <;> (try simp [FrameValid]) <;> (try omega)))
+
+private theorem parseBody_valid : ∀ (t : Nat) (rest : List Nat) (f : Frame) (r : List Nat),
+    parseBody t rest = some (f, r) → FrameValid f
+  | 0, rest, f, r, h => by pv h
+  | 1, rest, f, r, h => by pv h
+  | 2, rest, f, r, h => by pv h
+  | 3, rest, f, r, h => by pv h
+  | 4, rest, f, r, h => by pv h
+  | 5, rest, f, r, h => by pv h
+  | 6, rest, f, r, h => by pv h
+  | 7, rest, f, r, h => by pv h
+  | 8, rest, f, r, h => by pv h
+  | 9, rest, f, r, h => by pv h
+  | 10, rest, f, r, h => by pv h
+  | 11, rest, f, r, h => by pv h
+  | 12, rest, f, r, h => by pv h
+  | 13, rest, f, r, h => by pv h
+  | 14, rest, f, r, h => by pv h
+  | 15, rest, f, r, h => by pv h
+  | 16, rest, f, r, h => by pv h
+  | 17, rest, f, r, h => by pv h
+  | 18, rest, f, r, h => by pv h
+  | 19, rest, f, r, h => by pv h
+  | 20, rest, f, r, h => by pv h
+  | 21, rest, f, r, h => by pv h
+  | 22, rest, f, r, h => by pv h
+  | 23, rest, f, r, h => by pv h
+  | 24, rest, f, r, h => by
+    simp [parseBody, consumeNewConnectionID] at h
+    repeat' split at h
+    all_goals simp at h
+    obtain ⟨hh, _⟩ := h
+    subst hh
+    rename_i hsr cid b3 _ hcid htok _
+    simp [FrameValid]
+    have hne : cid ≠ [] := fun hc => hcid (Or.inl hc)
+    have hpos : 1 ≤ cid.length := by
+      cases cid with
+      | nil => exact absurd rfl hne
+      | cons a t => simp
+    have h20 : ¬ (20 < cid.length) := fun hc => hcid (Or.inr hc)
+    omega
+  | 25, rest, f, r, h => by pv h
+  | 26, rest, f, r, h => by
+    simp [parseBody, consumePath] at h
+    obtain ⟨h8, hh, _⟩ := h
+    subst hh
+    simp [FrameValid]; omega
+  | 27, rest, f, r, h => by
+    simp [parseBody, consumePath] at h
+    obtain ⟨h8, hh, _⟩ := h
+    subst hh
+    simp [FrameValid]; omega
+  | 28, rest, f, r, h => by pv h
+  | 29, rest, f, r, h => by pv h
+  | 30, rest, f, r, h => by pv h
+  | t + 31, rest, f, r, h => by
+    simp [parseBody] at h
+
+/-- **Out-of-range values are rejected**: whatever bytes are given, an accepted frame satisfies
+the RFC 9000 field constraints (MAX_STREAMS ≤ 2^60, non-empty NEW_TOKEN, NEW_CONNECTION_ID with
+retire ≤ seq and a 1..20 byte connection ID and 16-byte token, STREAM end offset < 2^62,
+8 bytes of path data). -/
+theorem parser_accepts_only_valid (b : List Nat) (f : Frame) (n : Nat) (h : parseFrame b = some (f, n)) :
+    FrameValid f := by
+  unfold parseFrame at h
+  split at h
+  · simp at h
+  · rename_i t rest
+    split at h <;> simp at h
+    rename_i f' r hb
+    obtain ⟨rfl, _⟩ := h
+    exact parseBody_valid t rest _ r hb
+
+/-! ### Findings (the code as it is) -/
+
+/-- What `parseDebugFrameAck` is meant to do with the ranges: reverse them. -/
+def DebugAckOrderStatement : Prop := ∀ l : List Nat, debugReverse l = l.reverse
+
+/-- The loop swaps element `i` with the LAST element on every iteration: four ranges come out
+as `[d, a, c, b]`. (Finding `debugack-range-order`.) -/
+theorem debugAckOrder_full_false : ¬ DebugAckOrderStatement := by
+  intro h
+  have := h [1, 2, 3, 4]
+  revert this
+  decide
+
+/-- … and it is the reversal for up to three ranges. -/
+theorem debugAckOrder_holds_partial {α : Type} (l : List α) (h : l.length ≤ 3) :
+    debugReverse l = l.reverse := by
+  match l, h with
+  | [], _ => simp [debugReverse]
+  | [a], _ => simp [debugReverse]
+  | [a, b], _ => simp [debugReverse, swapAt, List.range, List.range.loop]
+  | [a, b, c], _ => simp [debugReverse, swapAt, List.range, List.range.loop]
+
+/-- RFC 9000 §19.15: the Length field of NEW_CONNECTION_ID is ONE byte and must be in 1..20.
+Stated for frames whose sequence numbers are the one-byte varints 0, 0: the byte after them. -/
+def NewCidLengthStatement : Prop :=
+  ∀ (l : Nat) (rest : List Nat) (f : Frame) (r : List Nat), l < 256 →
+    consumeNewConnectionID (0 :: 0 :: l :: rest) = some (f, r) → 1 ≤ l ∧ l ≤ 20
+
+/-- The parser reads the length as a varint: Length byte 0x40 (= 64, out of range) followed by
+0x01 is accepted as a 1-byte connection ID. (Finding `newcid-length-not-uint8`.) -/
+theorem newCidLength_full_false : ¬ NewCidLengthStatement := by
+  intro h
+  have := h 64 (1 :: 7 :: List.replicate 16 9) (Frame.newConnectionID 0 0 [7] (List.replicate 16 9)) []
+    (by decide) (by decide)
+  omega
+
+/-- Outside the region `Length byte ≥ 64` the 8-bit reading and the varint reading agree. -/
+theorem newCidLength_holds_partial (l : Nat) (rest : List Nat) (f : Frame) (r : List Nat) (hl : l < 64)
+    (h : consumeNewConnectionID (0 :: 0 :: l :: rest) = some (f, r)) : 1 ≤ l ∧ l ≤ 20 := by
+  have h0 : takeVarint (0 :: 0 :: l :: rest) = some (0, 0 :: l :: rest) := by
+    simp [takeVarint, consumeVarint]
+  have h1 : takeVarint (0 :: l :: rest) = some (0, l :: rest) := by
+    simp [takeVarint, consumeVarint]
+  have hd : l / 64 = 0 := by omega
+  have hm : l % 64 = l := by omega
+  simp only [consumeNewConnectionID, h0, h1] at h
+  simp [takeVarintBytes, consumeVarintBytes, consumeVarint, hd, hm] at h
+  by_cases hlen : rest.length < l
+  · simp [hlen] at h
+  · simp [hlen] at h
+    obtain ⟨⟨hne, h20⟩, _⟩ := h
+    have hlen' : l ≤ rest.length := by omega
+    rw [Nat.min_eq_left hlen'] at h20
+    refine ⟨?_, h20⟩
+    cases l with
+    | zero => simp at hne
+    | succ l => omega
+
+/-! ### Transport parameters -/
+
+/-- The integer-valued parameters. -/
+def intParamIds : List Nat := [1, 3, 4, 5, 6, 7, 8, 9, 10, 11, 14]
+
+/-- The out-of-range values named by RFC 9000 §18.2 (and C28). -/
+def OutOfRange (id v : Nat) : Prop :=
+  (id = 3 ∧ v < 1200) ∨ ((id = 8 ∨ id = 9) ∧ v > 1152921504606846976) ∨ (id = 10 ∧ v > 20) ∨
+  (id = 11 ∧ v ≥ 16384) ∨ (id = 14 ∧ v < 2)
+
+instance (id v : Nat) : Decidable (OutOfRange id v) := by unfold OutOfRange; exact inferInstance
+
+/-- What receiving integer parameter `id` with value `v` does to the defaults. -/
+def setIntParam (id v : Nat) : TParams :=
+  if id = 1 then { defaultParams with maxIdleTimeout := (if v > 4294967296 then 0 else v) * msNs }
+  else if id = 3 then { defaultParams with maxUDPPayloadSize := v }
+  else if id = 4 then { defaultParams with initialMaxData := v }
+  else if id = 5 then { defaultParams with initialMaxStreamDataBidiLocal := v }
+  else if id = 6 then { defaultParams with initialMaxStreamDataBidiRemote := v }
+  else if id = 7 then { defaultParams with initialMaxStreamDataUni := v }
+  else if id = 8 then { defaultParams with initialMaxStreamsBidi := v }
+  else if id = 9 then { defaultParams with initialMaxStreamsUni := v }
+  else if id = 10 then { defaultParams with ackDelayExponent := v }
+  else if id = 11 then { defaultParams with maxAckDelay := v * msNs }
+  else { defaultParams with activeConnIDLimit := v }
+
+private theorem wholeVarint_enc (v : Nat) (e : List Nat) (h : appendVarint v = some e) :
+    wholeVarint e = some v := by
+  have := consume_append v e [] h
+  simp at this
+  simp [wholeVarint, this]
+
+private theorem splitTLVs_single (id : Nat) (val bs : List Nat) (h : tlvBytes id val = some bs) :
+    splitTLVs bs = some [(id, val)] := by
+  unfold tlvBytes at h
+  split at h <;> simp at h
+  rename_i a b ha hb
+  subst h
+  have hpos := (append_length_pos id a ha).1
+  unfold splitTLVs
+  obtain ⟨n, hn⟩ : ∃ n, (a ++ b).length = n + 1 := ⟨(a ++ b).length - 1, by simp; omega⟩
+  rw [hn]
+  cases hab : a ++ b with
+  | nil => simp [hab] at hn
+  | cons x xs =>
+    have e1 : x :: xs = a ++ (b ++ []) := by simp [hab]
+    simp only [splitTLVsF]
+    rw [e1, takeVarint_append id a _ ha]
+    simp only [takeVarintBytes_append val [] b hb]
+    cases n <;> simp [splitTLVsF]
+
+/-- **Unmarshal rejects exactly the out-of-range values.** A well-formed encoding of one integer
+parameter is rejected iff its value is out of range; otherwise the result is the default
+parameter set with that one field updated (single-parameter round trip). -/
+theorem unmarshal_int_param (id v : Nat) (bs : List Nat) (hid : id ∈ intParamIds)
+    (h : tlvInt id v = some bs) :
+    unmarshal bs = if OutOfRange id v then none else some (setIntParam id v) := by
+  unfold tlvInt at h
+  split at h <;> try (simp at h; done)
+  rename_i e he
+  have hs := splitTLVs_single id e bs h
+  have hw := wholeVarint_enc v e he
+  simp only [unmarshal, hs, applyAll]
+  simp [intParamIds] at hid
+  rcases hid with rfl | rfl | rfl | rfl | rfl | rfl | rfl | rfl | rfl | rfl | rfl <;>
+    simp [applyParam, hw, OutOfRange, setIntParam, idOriginalDstConnID, idMaxIdleTimeout, idStatelessResetToken,
+      idMaxUDPPayloadSize, idInitialMaxData, idInitialMaxStreamDataBidiLocal, idInitialMaxStreamDataBidiRemote,
+      idInitialMaxStreamDataUni, idInitialMaxStreamsBidi, idInitialMaxStreamsUni, idAckDelayExponent,
+      idMaxAckDelay, idDisableActiveMigration, idPreferredAddress, idActiveConnIDLimit, maxStreamsLimit] <;>
+    (split <;> simp_all <;> omega)
+
+/-- Defaults: nothing is transmitted, and nothing received means the RFC defaults. -/
+theorem marshal_default : marshal defaultParams = some [] ∧ unmarshal [] = some defaultParams := by decide
+
+/-- The full round-trip statement for transport parameters (every field at once).  It is tied
+by the differential run and stated on the implementation by the Go oracle; the theorems above
+prove it parameter by parameter for the integer parameters. -/
+def TPRoundTripStatement : Prop :=
+  ∀ (p : TParams) (bs : List Nat), marshal p = some bs →
+    p.maxIdleTimeout % msNs = 0 → p.maxIdleTimeout / msNs ≤ 4294967296 →
+    (∀ t, p.statelessResetToken = some t → t.length = 16) →
+    1200 ≤ p.maxUDPPayloadSize → p.initialMaxStreamsBidi ≤ maxStreamsLimit →
+    p.initialMaxStreamsUni ≤ maxStreamsLimit → p.ackDelayExponent ≤ 20 →
+    p.maxAckDelay % msNs = 0 → p.maxAckDelay / msNs < 16384 → 2 ≤ p.activeConnIDLimit →
+    (match p.preferredAddrConnID with
+     | some _ => p.preferredAddrV4.1.length = 4 ∧ p.preferredAddrV6.1.length = 16 ∧
+                 p.preferredAddrV4.2 < 65536 ∧ p.preferredAddrV6.2 < 65536 ∧
+                 (∃ t, p.preferredAddrResetToken = some t ∧ t.length = 16)
+     | none => p.preferredAddrV4 = ([], 0) ∧ p.preferredAddrV6 = ([], 0) ∧ p.preferredAddrResetToken = none) →
+    unmarshal bs = some p
+
+/-! ### Packets (grade S: model + byte-exact tie with a toy AEAD + real-AEAD oracle) -/
+
+open NetVerif.Model.QuicPacket in
+/-- The packet round-trip statement with the AEAD and header protection abstract: under
+`open (seal x) = x`, a 16-byte tag, a 5-byte mask and a receive window in which the truncated
+packet number decodes, a written long-header packet parses back to its fields.  NOT proved in
+Lean (bit-level XOR/AND reasoning on the first byte is missing); it is tied by the differential
+run with the toy instance below and stated on the implementation by the Go oracle with the
+real cipher suites. -/
+def LongPacketRoundTripStatement : Prop :=
+  ∀ (c : Crypto) (lim ptype version : Nat) (dcid scid token : List Nat) (pnum : Nat) (maxAcked recvMax : Int)
+    (payload pkt : List Nat),
+    (∀ pn hdr pay, c.aeadOpen pn hdr (c.aeadSeal pn hdr pay) = some pay) →
+    (∀ pn hdr pay, (c.aeadSeal pn hdr pay).length = pay.length + 16) →
+    (∀ s, (c.hpMask s).length = 5 ∧ ∀ b ∈ c.hpMask s, b < 256) →
+    (∀ b ∈ dcid ++ scid ++ token ++ payload, b < 256) →
+    1 ≤ ptype → ptype ≤ 3 → 0 < version → version < 4294967296 → dcid.length ≤ 20 → scid.length ≤ 20 →
+    pnum < 4611686018427387904 → maxAcked < pnum →
+    Model.PacketNumber.decodePN recvMax ((pnum : Int) % 256 ^ pnLen pnum maxAcked) (pnLen pnum maxAcked) = pnum →
+    writeLong c lim ptype version dcid scid token pnum maxAcked payload = PW.packet pkt →
+    ∃ pay, parseLong c (pkt ++ [64, 1, 2]) recvMax =
+      some ({ ptype := ptype, version := version, num := pnum, dcid := dcid, scid := scid,
+              extra := (if ptype = 1 then token else []), payload := pay }, pkt.length) ∧
+      pay.take payload.length = payload.take pay.length
+
+open NetVerif.Model.QuicPacket in
+/-- Non-vacuity / sanity, checked by the kernel on concrete packets with the toy instance:
+an Initial with a token and a 2-byte packet number, and a 1-RTT packet, round-trip. -/
+theorem toy_packets_roundtrip :
+    (match writeLong (toy 0) 1200 1 1 [1, 2, 3, 4] [5, 6, 7, 8, 9] [0xaa, 0xbb] 300 100 [6, 0, 5, 1, 2] with
+     | PW.packet pkt => (parseLong (toy 0) (pkt ++ [64, 1, 2]) 299).map (fun r => (r.1.num, r.1.payload, r.1.extra, r.2 = pkt.length))
+     | _ => none) = some (300, [6, 0, 5, 1, 2], [0xaa, 0xbb], true) ∧
+    (match writeShort (toy 0) 1200 4 [1, 2, 3, 4, 5, 6, 7, 8] 70000 69990 [1] with
+     | PW.packet pkt => parseShort (toy 0) (toy 1) 4 pkt 8 69998
+     | _ => none) = some (70000, [1, 0, 0]) := by
+  decide +kernel
 
 end NetVerif.Proofs.C28
